@@ -160,6 +160,14 @@ def stepLine (genCfg specCfg : Cfg) (st : St) (toks : List String) : St :=
      | none => st.bad "bad msg line")
   | ["mode", m] =>
     { st with mode := if m = "sync" then .sync else if m = "async" then .async else .both }
+  | "lost" :: sock :: ts :: rest =>
+    -- a well-formed message the harness SENT (headers as the harness built them) that never reached `_on_data`:
+    -- the model follows the implementation (nothing happened), the judges read the message that was sent
+    (match pairList st.tbl (if rest.isEmpty then "~" else ",".intercalate rest) with
+     | some pairs =>
+       let st := beginEv st genCfg specCfg fun _ => .noise (ts.toInt?.getD 0)
+       { st with evJ := some (Parse.parseEv specCfg (sock == "A") pairs) }
+     | none => st.bad "bad lost line")
   | ["drop", ts] => beginEv st genCfg specCfg fun _ => .noise (ts.toInt?.getD 0)
   | ["purge", ts] => beginEv st genCfg specCfg fun _ => .purge (ts.toInt?.getD 0)
   | "pre" :: rest =>
